@@ -668,7 +668,7 @@ def run_c01(ctx):
                ('c01_n4w2_ok', 4, 2, 'MC_DagOk', {})]
     _common(ctx, INV_C01, mc, ['W_DecideDuringPub', 'W_TwoRunning', 'W_WaitReached'],
             impl_plan=[(3, 2, OUT_ALL, None, False, ctx.pick(25, 120), ctx.pick(12, 30)),
-                       (4, 3, OUT_ALL, ['ABSENT', 'DONE'], False, ctx.pick(15, 80), ctx.pick(10, 30)),
+                       (4, 3, OUT_ALL + ['reshape'], ['ABSENT', 'DONE'], False, ctx.pick(15, 80), ctx.pick(10, 30)),
                        (5, 4, ['ok', 'ok', 'fail', 'raise'], None, False, ctx.pick(8, 40), ctx.pick(8, 25)),
                        (8, 5, ['ok', 'ok', 'ok', 'fail', 'raise', 'none'], None, False, ctx.pick(4, 40), ctx.pick(5, 15)),
                        (4, 2, ['ok', 'ok', 'fail'], None, 'nested', ctx.pick(25, 120), ctx.pick(6, 15)),
@@ -716,8 +716,8 @@ def run_c03(ctx):
                ('c03_n3w2_mal', 3, 2, 'MC_DagEmptyMal', {}), ('c03_n3w2_init', 3, 2, 'MC_DagInit', {}), ('c03_n4w2_ok', 4, 2, 'MC_DagOk', {}),
                ('c03_live_n3w2', 3, 2, 'MC_DagEmpty3', dict(spec='FairSpec', properties=['C03_Terminates'], coverage=False))]
     _common(ctx, INV_C03, mc, [('W_Raised', 2, 2, 'MC_AnyInit'), 'W_WaitReached', 'W_NotifyNobody', ('W_SecondCall', 2, 2, 'MC_DagInitDone', 2)],
-            impl_plan=[(3, 2, OUT_ALL, ['ABSENT', 'ABSENT', 'DONE', 'FAILED', 'SKIPPED'], True, ctx.pick(30, 150), ctx.pick(10, 25)),
-                       (4, 3, OUT_ALL, ['ABSENT', 'DONE'], True, ctx.pick(15, 80), ctx.pick(10, 25)),
+            impl_plan=[(3, 2, OUT_ALL + ['reshape'], ['ABSENT', 'ABSENT', 'DONE', 'FAILED', 'SKIPPED'], True, ctx.pick(30, 150), ctx.pick(10, 25)),
+                       (4, 3, OUT_ALL + ['reshape', 'reshape'], ['ABSENT', 'DONE'], True, ctx.pick(15, 80), ctx.pick(10, 25)),
                        (2, 1, OUT_ALL, ['ABSENT', 'DONE', 'FAILED'], True, ctx.pick(15, 40), ctx.pick(4, 8)),
                        (5, 4, OUT_ALL, None, False, ctx.pick(8, 40), ctx.pick(8, 25)),
                        (3, 2, ['ok', 'ok', 'fail', 'badstatus'], ['ABSENT', 'DONE'], False, ctx.pick(15, 60), ctx.pick(6, 15), 2)],
